@@ -15,19 +15,28 @@
 EXTENDS Integers, Sequences, FiniteSets, TLC, Json, Exact
 
 CONSTANTS EMIT,
-          Dev,      \* "none" | "sum_all_obs" | "mean_over_time" | "stale_obs" | "one_member"
+          Dev,      \* "none" | "sum_all_obs" | "mean_over_time" | "collapsed_particle_axis" | "stale_obs" | "one_member"
           Dims,     \* Eval: set of <<S, P, H>> coded as decimal digits SPH;  Prop: <<S, P, H, O>> coded SPHO
-          NPat
+          NPat,
+          RKinds,   \* Eval: reward kinds explored, subset of {"both", "act", "obs"}
+          TrajPats  \* Eval: 0 = every trajectory tag assignment;  > 0 = that many patterned assignments (large shapes)
 
-VARIABLES stage, dims, acts, traj, par
-vars == <<stage, dims, acts, traj, par>>
+VARIABLES stage, dims, acts, traj, par,
+          rk        \* Eval: kind of the reward model ("" outside Eval)
+vars == <<stage, dims, acts, traj, par, rk>>
 
 (* ------------------------------------------------------------------ Eval --- *)
 ActIds == 0..1
 ObsIds == 0..1
-(* reward table over (action tag, observation tag); not additive, not symmetric *)
+(* Reward models are TABLES over tags.  Three kinds, because a reward model is an arbitrary     *)
+(* callable and evaluate_plans must not rely on its result having been broadcast by BOTH       *)
+(* arguments:  "both" depends on action and observation (not additive, not symmetric),         *)
+(* "act" on the action only (a pure control cost: its value carries the shape of the ACTION    *)
+(* argument alone), "obs" on the observation only.                                             *)
 RTab == << << Q(-3, 4), Q(1, 2) >>, << Q(1, 4), I(-2) >> >>
-Reward(a, o) == RTab[a + 1][o + 1]
+RAct == << Q(-1, 4), Q(-3, 2) >>
+RObs == << Q(1, 2), I(-3) >>
+Reward(a, o) == IF rk = "act" THEN RAct[a + 1] ELSE IF rk = "obs" THEN RObs[o + 1] ELSE RTab[a + 1][o + 1]
 
 S == dims[1]
 P == dims[2]
@@ -39,22 +48,38 @@ Return(as, tr) ==           \* one plan, one particle
   ELSE IF Dev = "mean_over_time"
   THEN QMean([t \in 1..H |-> Reward(as[t], tr[t])])
   ELSE QSum([t \in 1..H |-> Reward(as[t], tr[t])])
-Eval(A, T) == [s \in 1..Len(A) |-> QMean([p \in 1..Len(T[s]) |-> Return(A[s], T[s][p])])]
+(* per plan: the particle AVERAGE of the per-particle returns - also when the reward ignores the *)
+(* observation and all per-particle returns of a plan are identical.                           *)
+(* deviation "collapsed_particle_axis": an action-only reward evaluated on actions that carry   *)
+(* a particle axis of size 1 yields ONE return per plan, which is then divided by P             *)
+Eval(A, T) ==
+  [s \in 1..Len(A) |->
+     IF Dev = "collapsed_particle_axis" /\ rk = "act"
+     THEN QDiv(Return(A[s], T[s][1]), I(Len(T[s])))
+     ELSE QMean([p \in 1..Len(T[s]) |-> Return(A[s], T[s][p])])]
 
-Init == stage = 0 /\ dims = << >> /\ acts = << >> /\ traj = << >> /\ par = << >>
+Init == stage = 0 /\ dims = << >> /\ acts = << >> /\ traj = << >> /\ par = << >> /\ rk = ""
 
 ChooseDims == /\ stage = 0 /\ \E c \in Dims : dims' = << c \div 100, (c \div 10) % 10, c % 10 >>
+              /\ rk' \in RKinds
               /\ stage' = 1 /\ UNCHANGED <<acts, traj, par>>
 ChooseActs == /\ stage = 1 /\ acts' \in [1..S -> [1..H -> ActIds]]
-              /\ stage' = 2 /\ UNCHANGED <<dims, traj, par>>
-(* the trajectories of one more plan *)
-ChooseTraj == /\ stage = 2 /\ Len(traj) < S
+              /\ stage' = 2 /\ UNCHANGED <<dims, traj, par, rk>>
+(* the trajectories of one more plan: every tag assignment ... *)
+ChooseTraj == /\ stage = 2 /\ TrajPats = 0 /\ Len(traj) < S
               /\ \E tr \in [1..P -> [1..(H + 1) -> ObsIds]] : traj' = Append(traj, tr)
-              /\ UNCHANGED <<stage, dims, acts, par>>
+              /\ UNCHANGED <<stage, dims, acts, par, rk>>
+(* ... or, for shapes too large for that, patterned assignments of all plans at once *)
+ChooseTrajPattern ==
+  /\ stage = 2 /\ TrajPats > 0 /\ traj = << >>
+  /\ \E q \in 1..TrajPats :
+       traj' = [s \in 1..S |-> [p \in 1..P |-> [t \in 1..(H + 1) |-> ((s * q + p * (q + 1) + t + (p * t) \div 2) % 2)]]]
+  /\ UNCHANGED <<stage, dims, acts, par, rk>>
 Evaluate == /\ stage = 2 /\ Len(traj) = S
-            /\ stage' = 3 /\ UNCHANGED <<dims, acts, traj, par>>
-            /\ EMIT => PrintT(<<"EMIT", ToJson([dims |-> dims, acts |-> acts, traj |-> traj, rtab |-> RTab, exp |-> Eval(acts, traj)])>>)
-NextEval == ChooseDims \/ ChooseActs \/ ChooseTraj \/ Evaluate
+            /\ stage' = 3 /\ UNCHANGED <<dims, acts, traj, par, rk>>
+            /\ EMIT => PrintT(<<"EMIT", ToJson([dims |-> dims, rkind |-> rk, acts |-> acts, traj |-> traj,
+                                              rtab |-> RTab, ract |-> RAct, robs |-> RObs, exp |-> Eval(acts, traj)])>>)
+NextEval == ChooseDims \/ ChooseActs \/ ChooseTraj \/ ChooseTrajPattern \/ Evaluate
 
 DoneEval == stage = 3
 (* the observation reached after the last action is not rewarded *)
@@ -72,6 +97,14 @@ ParticlesExchangeable ==
 (* with a single particle the value is the plain sum of the table entries along the horizon *)
 UnitCase == DoneEval /\ P = 1 => \A s \in 1..S :
               Eval(acts, traj)[s] = QSum([t \in 1..H |-> Reward(acts[s][t], traj[s][1][t])])
+
+(* with a reward that ignores the observation every particle of a plan earns the same return, and the *)
+(* plan's value is that return (the average of P identical numbers) - whatever the trajectories are   *)
+ActionOnlyIsPlainSum ==
+  DoneEval /\ rk = "act" => \A s \in 1..S : Eval(acts, traj)[s] = QSum([t \in 1..H |-> RAct[acts[s][t] + 1]])
+(* with a reward that ignores the action all plans with the same particles have the same value *)
+ObservationOnlyIgnoresActions ==
+  DoneEval /\ rk = "obs" => \A s \in 1..S, a \in ActIds : Eval([acts EXCEPT ![s][1] = a], traj) = Eval(acts, traj)
 
 (* ----------------------------------------------------------------- TsInf --- *)
 O  == dims[4]
@@ -107,16 +140,16 @@ TsInf(Pm, midx, A) ==
      Roll(Pm, IF Dev = "one_member" THEN 1 ELSE midx[p] + 1, A[s], Len(A[s]))]]
 
 ChooseDimsP == /\ stage = 0 /\ \E c \in Dims : dims' = << c \div 1000, (c \div 100) % 10, (c \div 10) % 10, c % 10 >>
-               /\ stage' = 1 /\ UNCHANGED <<acts, traj, par>>
+               /\ stage' = 1 /\ UNCHANGED <<acts, traj, par, rk>>
 ChooseParamsP == /\ stage = 1 /\ \E p \in 1..NPat : par' = PParams(p)
-                 /\ stage' = 2 /\ UNCHANGED <<dims, acts, traj>>
+                 /\ stage' = 2 /\ UNCHANGED <<dims, acts, traj, rk>>
 (* plans (action values by index into ActVals) and the member of every particle *)
 ChoosePlanP == /\ stage = 2
                /\ \E ap \in 1..NPat : acts' = [s \in 1..S |-> [t \in 1..H |-> ActVals[((s * 2 + t + ap) % Len(ActVals)) + 1]]]
                /\ \E m \in [1..P -> 0..(E - 1)] : traj' = m        \* traj holds model_idx until propagated
-               /\ stage' = 3 /\ UNCHANGED <<dims, par>>
+               /\ stage' = 3 /\ UNCHANGED <<dims, par, rk>>
 Propagate == /\ stage = 3
-             /\ stage' = 4 /\ UNCHANGED <<dims, acts, traj, par>>
+             /\ stage' = 4 /\ UNCHANGED <<dims, acts, traj, par, rk>>
              /\ EMIT => PrintT(<<"EMIT", ToJson([dims |-> dims, par |-> par, acts |-> acts, model_idx |-> traj,
                                                exp |-> TsInf(par, traj, acts)])>>)
 
@@ -131,7 +164,7 @@ ChooseNoise == /\ stage = 0
                     /\ par' = [nout |-> o, lb |-> NoiseRaw(q, o),
                                cls |-> [i \in 1..E |-> [k \in 1..o |-> NoiseClass(NoiseRaw(q, o)[i][k])]]]
                     /\ EMIT => PrintT(<<"EMIT", ToJson([noise |-> par'])>>)
-               /\ stage' = 5 /\ UNCHANGED <<dims, acts, traj>>
+               /\ stage' = 5 /\ UNCHANGED <<dims, acts, traj, rk>>
 
 NextProp == ChooseDimsP \/ ChooseParamsP \/ ChoosePlanP \/ Propagate \/ ChooseNoise
 
